@@ -4,12 +4,43 @@ NOTES = ('All checks explore the real implementation in /repo (working tree) exh
          'models (vt/ref). VERIF_SEED only rotates non-boundary members of value alphabets; structures are enumerated completely for every seed. '
          'Genuine defects found are fixed in /repo by "fix:" commits or listed in known_findings.json.')
 ENGINES = [
-    {'name': 'E-enum', 'path': 'vt/astgen.py, vt/par.py, vt/ref/', 'serves_properties': ['C01', 'C02', 'C03', 'C08', 'C11', 'C15', 'C18'],
+    {'name': 'E-enum', 'path': 'vt/astgen.py, vt/par.py, vt/ref/', 'serves_properties': ['C01', 'C02', 'C03', 'C08', 'C09', 'C11', 'C15', 'C16', 'C17', 'C18'],
      'kind_free_text': 'bounded-exhaustive program x data enumerator: all well-typed statements of bounded shape over the live registries x all tables/ledgers of bounded size over a value alphabet, executed on the real implementation and compared with a reference interpreter'},
     {'name': 'E-bfs', 'path': 'vt/explore/bfs.py', 'serves_properties': ['C10', 'C19'],
      'kind_free_text': 'explicit-state breadth-first search over operation histories on the product (real object, reference model) with canonical-state deduplication and closure detection'},
 ]
 CHECKS = {
+    'C09': {
+        'engine': 'E-enum',
+        'technique': 'exhaustive enumeration of parameter assignments, constant assignments and ALL execution histories up to a depth on one connection, each compared with literal / per-row / fresh-connection executions',
+        'design_ref': 'DESIGN.md section 4, C09',
+        'text': '(1) 21 statement templates (placeholders in targets, WHERE, ORDER BY expressions, function arguments, FROM- and IN-subqueries, non-commutative contexts, repeated names, list values) x ALL '
+                'assignments from per-slot literal alphabets: the parsed named and positional statements are re-executed for every assignment and must equal the statement with the values written as '
+                'literals (textual order for positional) and the reference interpreter. (2) Every depth<=2 expression of the C01 enumerator x ALL non-NULL constant assignments: folded value and announced '
+                'datatype equal per-row evaluation from a one-row table and the reference. (3) ALL 14^d histories (d <= 3 quick, <= 4 thorough) of executions on one connection (shared parsed statements with '
+                'other parameters, executemany, aggregate, PIVOT, IN/FROM subqueries, balance twice, OPEN/CLOSE, failing statement, second cursor): every step equals the fresh-connection outcome and the source '
+                'data is unchanged.',
+        'note': 'Trusted: vt/ref/select.py, vt/ref/expr.py. Histories are not merged by state (no abstraction argument needed); pristine statements per history are deep copies of freshly parsed ASTs.',
+    },
+    'C16': {
+        'engine': 'E-enum',
+        'technique': 'bounded-exhaustive enumeration of result tables (all columns of <= 3 cells per datatype, all datatype pairs) x all 128 renderer option combinations against layout invariants and a read-back parser',
+        'design_ref': 'DESIGN.md section 4, C16',
+        'text': 'Every column of <= 3 cells for each of 12 datatypes over alphabets with NULL, negatives, differing precision, several currencies, empty and multi-lot inventories x all 128 combinations of '
+                'boxed/unicode/spaced/expand/narrow/nullvalue/list separator; all 144 ordered datatype pairs (quick: a strength-3 orthogonal array of 16 option runs; thorough: all 128); the empty result. '
+                'Invariants on the emitted text: equal line widths, cells inside the column spans read off the rule line, header centred / cut only in narrow mode, NULL placeholder, extra lines only with '
+                'expand and never fewer than one, decimal-point alignment, read-back of every cell to its value; CSV: header + one record per expanded row, field == text cell.',
+        'note': 'Trusted: vt/ref/render.py (cell reader). Weakest readings listed in the evidence assumptions (centring within 1 blank, scientific notation exempt from alignment, unknown currencies outside).',
+    },
+    'C17': {
+        'engine': 'E-enum',
+        'technique': 'bounded-exhaustive enumeration of result tables mixing plain and amount-like columns against an oracle derived from the property text',
+        'design_ref': 'DESIGN.md section 4, C17',
+        'text': 'Every Amount/Position/Inventory column of <= 3 (quick) / <= 4 (thorough) cells over {NULL, 1-2 of 3 currencies, zero amounts, multi-lot and empty inventories} in three layouts with plain columns, '
+                'and all two- (thorough: three-) column combinations of <= 2 rows, with and without a display formatter: other columns/rows/order untouched, one `name (CUR)` decimal column per currency in '
+                'non-increasing frequency, each cell = sum of units over lots (quantised with a formatter) or NULL/0 when absent, no non-zero currency dropped.',
+        'note': 'Trusted: beancount Inventory/Amount. Tie order among equally frequent currencies is free; frequency read as rows or lots.',
+    },
     'C08': {
         'engine': 'E-enum',
         'technique': 'bounded-exhaustive enumeration of inner x outer query menus (nesting depth 2-3) x all small data variants, differential against the materialised form and a reference interpreter',
